@@ -155,3 +155,10 @@ Proof.
   exists (ex_script_tx [ex_coin_predicate [] [9]; ex_message_data_signed [5]] (ex_policies 0 [0; 0; 0; 0; 0; 0])).
   split; [vm_compute; reflexivity|]. unfold roundtrips. vm_compute. discriminate.
 Qed.
+
+(* `typed` requires policy bits < 64 (PoliciesBits::all()): a Policies carrying an unknown bit
+   (reachable through bitflags' binary serde, which retains unknown bits) reports a size that
+   counts the bit but encodes no value for it *)
+Lemma refuted_unknown_policy_bits :
+  exists v, typed S_Policies v = false /\ size S_Policies v = 16 /\ lenN (enc S_Policies v) = 8.
+Proof. exists (ex_policies 64 [0; 0; 0; 0; 0; 0]). vm_compute. repeat split; reflexivity. Qed.
